@@ -18,7 +18,7 @@ META = {
             "sequence of Next/Advance(k) up to a depth is executed and judged against the graph, with a monitor on "
             "every node of the iterator tree (so the calls unions/intersections make internally to their children "
             "are judged too). Random large indices and query trees are recorded and judged by TLC (trace validation).",
-    "note": "Small scope for the exhaustive part: 3-4 keys, 3 tokens, query depth <= 2, call sequences <= 2-5 calls; "
+    "note": "Small scope for the exhaustive part: 3-4 keys, 3 tokens, query depth <= 2, call sequences <= 2-4 calls; "
             "random part: up to thousands of keys, depth <= 3. Use of an iterator after it returned false is "
             "unspecified and never generated. Empty intersections are not generated (the code indexes iterators[0]). "
             "Trusted: TLC, the Go adapter (monitors are pass-through wrappers; a share of the cases runs without them).",
@@ -90,7 +90,7 @@ def run(ctx):
     if ctx.quick:
         model, cases = walk(ctx, "MCSortedIter", "SortedIterQuick.cfg", QUICK_PLAN, 5, 2, (8, 3), "k3", col, selftest=True)
     else:
-        model, cases = walk(ctx, "MCSortedIter", "SortedIterFull.cfg", THOROUGH_PLAN, 5, 3, (8, 5), "k3", col, selftest=True)
+        model, cases = walk(ctx, "MCSortedIter", "SortedIterFull.cfg", THOROUGH_PLAN, 5, 3, (8, 4), "k3", col, selftest=True)
         model4, cases4 = walk(ctx, "MCSortedIter", "SortedIterThorough.cfg", K4_PLAN, 6, 2, (16, 3), "k4", col)
     ctx.sample({"index": cases[137]["idx"], "kind": cases[137]["kind"], "profile": cases[137]["profile"],
                 "table": cases[137]["table"], "query": model.queries[200],
@@ -98,7 +98,7 @@ def run(ctx):
     # binding B: random large indices / query trees, recorded on the real iterators, judged by TLC
     col.register()
     from props import itertrace
-    itertrace.validate(ctx, col, mode="query", runs=ctx.pick(250, 4000), maxkeys=ctx.pick(120, 600),
+    itertrace.validate(ctx, col, mode="query", runs=ctx.pick(250, 1500), maxkeys=ctx.pick(120, 400),
                        calls=ctx.pick(25, 60), kinds="array,tree,compact")
     ctx.evaluations += col.stats.get("sequences", 0)
     ctx.traces_validated += col.stats.get("sequences", 0)
@@ -110,7 +110,7 @@ def run(ctx):
              "combinations), on ArrayIndex, TreeIndex (with insert/remove churn) and compact posting lists (two or "
              "three concretisation tables), every sequence of Next / Advance(k), k over all ranks incl. below, "
              "above and between stored keys, up to depth 2 (depth 3 for a seeded eighth of the index contents; "
-             "thorough: depth 3 / 5 with 3 keys, 2 / 3 with 4 keys) plus Next-to-the-end runs after every first "
+             "thorough: depth 3 / 4 with 3 keys, 2 / 3 with 4 keys) plus Next-to-the-end runs after every first "
              "call, is executed on a freshly compiled iterator and every result compared with "
              "TLC's cursor graph; every inner node is judged against its own denotation. evaluations = call "
              "sequences executed; distinct = (index content, query) pairs. binding B: random runs judged by TLC.",
